@@ -34,6 +34,8 @@ type cand struct {
 	p2sh, wit, csv bool
 	txs            []*btc.Tx
 	scriptOk       [][]bool // per tx, per input (nil for the coinbase)
+	found          [][]bool // per tx, per input: the sequential semantics finds a coin for this input
+	vouch          []bool   // per tx: chain.TrustedTxChecker answers true (nil: the hook is not installed) — pool.go
 }
 
 // ---- script tokeniser and sigop counting as Bitcoin Core defines them (no OP_RETURN exception) ----
@@ -427,7 +429,14 @@ func txTokens(sb *strings.Builder, tx *btc.Tx, ok []bool) {
 
 func (c *cand) oracleLine() string {
 	var sb strings.Builder
-	fmt.Fprintf(&sb, "block %s %d %d %d %s %s %s %d", hex.EncodeToString(c.hash), c.height, c.time, c.mtp, b2i(c.p2sh), b2i(c.wit), b2i(c.csv), len(c.txs))
+	op := "block"
+	if c.vouch != nil { // the hook is installed: its answers are part of the model's input (Model/ConnectTrust.lean)
+		op = "blockv "
+		for _, v := range c.vouch {
+			op += b2i(v)
+		}
+	}
+	fmt.Fprintf(&sb, op+" %s %d %d %d %s %s %s %d", hex.EncodeToString(c.hash), c.height, c.time, c.mtp, b2i(c.p2sh), b2i(c.wit), b2i(c.csv), len(c.txs))
 	for i, tx := range c.txs {
 		txTokens(&sb, tx, c.scriptOk[i])
 	}
